@@ -48,4 +48,29 @@ CLAIMS = {
                 "docs do not state it.",
         "technique": "property-based testing with before/after deep-equality oracle + exhaustive precedence table",
     },
+    "C14": {
+        "level": "Model-based testing: every history of length <= 3 (quick; <= 4 thorough) over a 20-operation "
+                 "alphabet (sync/async load-and-render with names, namespaces and globals, split get/get/render, "
+                 "modify, delete, injected load failure) x 12 configurations (CachingDict/FileSystem/Choice loader, "
+                 "auto_reload on/off, capacity 1/2) is enumerated exhaustively (75,780 / 1.5M histories) and compared "
+                 "step by step with an uncached reference + explicit LRU model; plus Hypothesis-generated histories of "
+                 "up to 40 operations (16k / 240k). Exhaustive for the enumerated alphabet and length; exploration "
+                 "beyond.",
+        "design_ref": "DESIGN.md §3 C14",
+        "note": "Where the statement leaves behaviour open (does a failed refresh count as a use; may a fresh fs entry "
+                "consult the source) the model keeps a set of admissible LRU states. Two-task interleavings only for "
+                "the dict loader; OS-thread interleavings of run_in_executor are not controlled.",
+        "technique": "model-based testing: bounded-exhaustive operation histories + Hypothesis long histories vs LRU reference model",
+    },
+    "C20": {
+        "level": "Generated-input search (Hypothesis + enumerated boundaries): ~107k cases per quick run / ~2M thorough: "
+                 "string literals under every valid escaping of each character placed at 64 string sites, integer "
+                 "literals to 10^40 and boundary values with exponent spellings at 11 sites, float spellings checked "
+                 "against correctly rounded doubles, JSON-like values through the json filter (type-exact decode), and "
+                 "a negative family of invalid literals that must raise LiquidSyntaxError. Exploration only.",
+        "design_ref": "DESIGN.md §3 C20",
+        "note": "An independent reference decoder for the documented escape set validates every case; the atheris "
+                "byte-level target for the string scanner listed in DESIGN was not built.",
+        "technique": "property-based round-trip testing (Hypothesis) of literal denotation and json decode",
+    },
 }
